@@ -603,7 +603,9 @@ def check_case(case, ctx=None):
 
 
 def nonscalar_leaves(spec):
-    return (spec.get("arg") or {}).get("kind") == "vector" or any(s["kind"] in im.VEC for s in spec["sites"])
+    """does a trace of the program have a non-scalar leaf (vector argument, vector-valued choice,
+    or the probability vector of a categorical site)"""
+    return (spec.get("arg") or {}).get("kind") == "vector" or any(s["kind"] in im.VEC or s["kind"] == "cat" for s in spec["sites"])
 
 
 def est_exclusions(case, is_open):
@@ -665,13 +667,13 @@ def discrete_strategy(ctx, n):
         latent = [i for i in range(m) if i not in obs_sites]
         X = int(np.prod([im.ncodes(spec["sites"][i]) for i in latent]))
         obs = [[i, draw(st.integers(0, im.ncodes(spec["sites"][i]) - 1))] for i in obs_sites]
-        kind = draw(st.sampled_from(["Importance", "ImportanceK", "ImportanceK"]))
+        kind = draw(st.sampled_from(["ImportanceK", "Importance", "ImportanceK", "Importance"]))
         k = 1
         if kind == "ImportanceK":
-            k = draw(st.sampled_from([1, 2, 2, 3, 3]))
+            k = draw(st.sampled_from([2, 3, 1, 2, 3]))
             while X**k > 5000 and k > 1:
                 k -= 1
-        qk = draw(st.sampled_from(["none", "guide", "guide", "table"]))
+        qk = draw(st.sampled_from(["guide", "table", "none", "guide", "table"]))
         if qk == "none":
             q = None
         elif qk == "table":
@@ -679,7 +681,7 @@ def discrete_strategy(ctx, n):
         else:
             q = guide_strategy(draw, spec, obs_sites, latent)
         change = None
-        if draw(st.integers(0, 2)) == 0:
+        if draw(st.integers(0, 3)) == 3:
             keep = [o for o in obs if draw(st.integers(0, 3)) > 0]
             if not keep and draw(st.booleans()):
                 keep = [obs[0]]
@@ -781,9 +783,14 @@ def run(ctx):
     import jax
 
     n = ctx.pick(100_000, 400_000)
-    state = {"n": 0}
+    state = {"n": 0, "started": False}
 
     def chk(case):
+        if not state["started"]:
+            # Hypothesis always starts with the all-minimal example (identical in every shard)
+            state["started"] = True
+            ctx.count("skipped-minimal-example")
+            return
         ctx.note_case(case, nontrivial=is_nontrivial(case), classes=classes_of(case))
         if not FULL and not case.get("est") and case.get("change") is None:
             for k in est_exclusions(case, ctx.is_open):
@@ -797,9 +804,9 @@ def run(ctx):
 
     # one shard in five draws Gaussian targets, the others discrete ones
     if ctx.shard % 5 == 4:
-        ctx.run_hypothesis(gauss_strategy(ctx, n), chk, ctx.pick(2, 6), salt="gauss")
+        ctx.run_hypothesis(gauss_strategy(ctx, n), chk, ctx.pick(3, 7), salt="gauss")
     else:
-        ctx.run_hypothesis(discrete_strategy(ctx, n), chk, ctx.pick(2, 6), salt="discrete")
+        ctx.run_hypothesis(discrete_strategy(ctx, n), chk, ctx.pick(3, 7), salt="discrete")
 
 
 def replay(ctx, case):
